@@ -73,6 +73,8 @@ class Scheduler:
         self.uncaught: list[tuple[str, BaseException]] = []
         self.done_sem = _real["Semaphore"](0)
         self.name_counter: dict[str, int] = {}
+        self.stuck: list[str] = []
+        self.stuck_labels: dict[str, str] = {}
 
     # ----- naming
     def name(self, obj, role):
@@ -155,6 +157,8 @@ class Scheduler:
                 raise Killed()
 
     def _abort(self):
+        self.stuck = [t.name for t in self.order if t.status != "done"]
+        self.stuck_labels = {t.name: t.label for t in self.order if t.status != "done"}
         self.dead = True
         for t in self.order:
             if t.status != "done":
@@ -333,9 +337,11 @@ def _det_wanted() -> Scheduler | None:
 # ------------------------------------------------------------------ primitives
 
 class DetLock:
-    def __init__(self, sched):
+    def __init__(self, sched, noyield=False):
         self.s = sched
         self._owner = None
+        self.noyield = noyield   # acquire is not a visible operation (used for queue.Queue's mutex when the
+                                 # queue is abstracted as atomic; sound because it is never held across a yield)
 
     def _free_for(self, t):
         return self._owner is None
@@ -351,6 +357,9 @@ class DetLock:
                 self._owner = me
                 return True
             return False
+        if self.noyield and self._owner is None:
+            self._owner = me
+            return True
         deadline = None if timeout is None or timeout < 0 else s.clock + timeout
         s.block("lock", self, deadline, f"acquire {s.role(self)}")
         if self._owner is not None:
@@ -565,9 +574,15 @@ class DetSemaphore:
 
 # ------------------------------------------------------------------ patched factories
 
+ATOMIC_QUEUES = False   # when True, locks created by module `queue` are non-yielding
+
+
 def _Lock(*a, **k):
     s = _det_wanted()
-    return DetLock(s) if s else _real["Lock"](*a, **k)
+    if not s:
+        return _real["Lock"](*a, **k)
+    noyield = ATOMIC_QUEUES and sys._getframe(1).f_globals.get("__name__", "") == "queue"
+    return DetLock(s, noyield=noyield)
 
 
 def _RLock(*a, **k):
